@@ -203,6 +203,11 @@ def observe(h, U, probes, real):
                 o[("get_weights", tag)] = Counter(h.get_weights(up_to=up_to, **kw))
                 o[("get_weights_dict", tag)] = {
                     cdedge(a): b for a, b in h.get_weights(up_to=up_to, asdict=True, **kw).items()}
+                o[("edges_meta", tag)] = {
+                    cdedge(a): dc(b)
+                    for a, b in h.get_edges(metadata=True, up_to=up_to, **kw).items()}
+        o[("get_edges", "up_to omitted", k)] = Counter(cdedge(e) for e in h.get_edges(size=k))
+        o[("get_weights", "up_to omitted", k)] = Counter(h.get_weights(order=k - 1))
     o["check_edge"], o["get_weight"], o["edge_meta"] = {}, {}, {}
     eset = set(edges)
     for p in list(probes) + [e for e in edges if e not in probes]:
@@ -287,6 +292,10 @@ class DirectedAdapter(H.Adapter):
     def probe_of_key(self, key):
         return (tuple(sorted(key[0])), tuple(sorted(key[1])))
 
+    def sibling_keys(self, key):
+        # the reversed hyperedge is always asked about too
+        return [(key[1], key[0])] if key[0] != key[1] else []
+
     def sort_key(self, key):
         return (len(key[0]) + len(key[1]), sorted(key[0]), sorted(key[1]))
 
@@ -299,7 +308,7 @@ class DirectedAdapter(H.Adapter):
 
     def construct(self, weighted, recs, ws, metas, node_meta, hg_meta):
         from hypergraphx import DirectedHypergraph
-        kw = {"weighted": weighted}
+        kw = {"weighted": True} if weighted else {}   # the documented default is unweighted
         if hg_meta is not None:
             kw["hypergraph_metadata"] = hg_meta
         if node_meta is not None:
